@@ -69,6 +69,12 @@ fn prelude() -> BlockStmt {
                 es(array(vec![neg(int(1))])),
             ],
         )),
+        // literals that are evaluated once per call: every call must hand out a value of its own, whatever happened to the
+        // earlier ones (the text through a builtin that returns its argument, the lists with literal elements only)
+        es(func("tekst", &[], vec![es(string("abéz€"))])),
+        es(func("vers", &[], vec![es(calln("string", vec![string("abéz€")]))])),
+        es(func("rij", &[], vec![es(array(vec![int(1), int(2), int(3)]))])),
+        es(func("tabel", &[], vec![es(array(vec![array(vec![int(0), int(0)]), array(vec![float(0.5)]), array(vec![string("k")])]))])),
     ]
 }
 
@@ -171,13 +177,34 @@ fn gen_op(t: &mut Tape, kinds: &mut [Kind; 4]) -> Stmt {
             es(assign(ident(v), array((0..n).map(|_| gen_value(t, 1)).collect())))
         }
         2 | 3 => {
+            match t.below(8) {
+                0 => {
+                    kinds[vi] = Kind::Str(5);
+                    return es(assign(ident(v), calln("tekst", vec![])));
+                }
+                1 => {
+                    kinds[vi] = Kind::Str(5);
+                    return es(assign(ident(v), calln("vers", vec![])));
+                }
+                2 => {
+                    kinds[vi] = Kind::Arr(3);
+                    return es(assign(ident(v), calln(if t.maybe(128) { "rij" } else { "tabel" }, vec![])));
+                }
+                _ => {}
+            }
             let n = t.below(7);
             kinds[vi] = Kind::Str(n);
-            es(assign(ident(v), string(&str_of(t, n))))
+            let lit = string(&str_of(t, n));
+            // sometimes through a builtin that returns its argument
+            es(assign(ident(v), if t.maybe(80) { calln("string", vec![lit]) } else { lit }))
         }
         4 => {
             let wi = t.below(4);
             kinds[vi] = kinds[wi];
+            if matches!(kinds[wi], Kind::Str(_)) && t.maybe(100) {
+                // an alias through string()
+                return es(assign(ident(v), calln("string", vec![ident(VARS[wi])])));
+            }
             es(assign(ident(v), ident(VARS[wi])))
         }
         5 => es(assign(ident("r"), index(ident(v), gen_index(t, len_of(k))))),
